@@ -609,10 +609,22 @@ func (c *Client) negotiateVersion(ctx context.Context) error {
 		return err
 	}
 	serverVersions := bi.ResponsePayload.(*payloads.DiscoverVersionsResponsePayload).ProtocolVersion
-	if len(serverVersions) == 0 {
+	// Adopt the highest version that is both advertised by the server and configured on the client,
+	// whatever the order (or filtering) of the server's list.
+	var best *kmip.ProtocolVersion
+	for i := range serverVersions {
+		v := serverVersions[i]
+		if !slices.Contains(c.supportedVersions, v) {
+			continue
+		}
+		if best == nil || ttlv.CompareVersions(v, *best) > 0 {
+			best = &v
+		}
+	}
+	if best == nil {
 		return errors.New("Protocol version negotiation failed. No common version found")
 	}
-	c.version = &serverVersions[0]
+	c.version = best
 	return nil
 }
 
